@@ -189,12 +189,24 @@ Definition dispatch_stream (jsonp : bytes -> res bytes) (op : bytes) (args : lis
 (* ---- specification-side encoders exposed to the harness ---- *)
 From GB Require Import Spec.EncHeader Spec.Values Spec.EncEvent Spec.Expect.
 
+(* padding patterns after the five classic elements: none = 0 everywhere (older requests), one = the same
+   byte for all three kinds of bitmap, three = presence bitmaps, rows' NULL bitmaps, table-map NULL bitmap *)
+Definition parse_pads (l : list val) : option (Z * Z * Z) :=
+  match map_opt as_int l with
+  | Some [] => Some (0, 0, 0)
+  | Some [p] => if is_pad p then Some (p, p, p) else None
+  | Some [pc; pn; pt] => if is_pad pc && is_pad pn && is_pad pt then Some (pc, pn, pt) else None
+  | _ => None
+  end.
+
 Definition parse_cfg (v : val) : option cfg :=
   match v with
-  | L [a; b; c; d; e] =>
-    match as_bool a, as_bool b, as_bool c, as_int d, as_int e with
-    | Some a, Some b, Some c, Some d, Some e => Some {| c_crc := a; c_v2 := b; c_tid4 := c; c_hlen := d; c_nsizes := e |}
-    | _, _, _, _, _ => None
+  | L (a :: b :: c :: d :: e :: pads) =>
+    match as_bool a, as_bool b, as_bool c, as_int d, as_int e, parse_pads pads with
+    | Some a, Some b, Some c, Some d, Some e, Some (pc, pn, pt) =>
+      Some {| c_crc := a; c_v2 := b; c_tid4 := c; c_hlen := d; c_nsizes := e;
+              c_pad_cols := pc; c_pad_null := pn; c_pad_tm := pt |}
+    | _, _, _, _, _, _ => None
     end
   | _ => None
   end.
@@ -226,7 +238,9 @@ Definition parse_vars (v : val) : option (list (Z * bytes)) :=
   | _ => None
   end.
 
-(* (mkevent cfg (ts sid next flags) body crc) -> (event-bytes expected...) *)
+(* (mkevent cfg (ts sid next flags) body crc) -> (event-bytes expected...)
+   cfg = (crc v2 tid4 hlen nsizes [pad | pad_cols pad_null pad_tm]); the expected values are printed through
+   v_bitmap (width and meaningful bits only), so they do not depend on the padding patterns *)
 Definition dispatch_enc (op : bytes) (args : list val) : option val :=
   let bad s := Some (L [vsym "bad"; vsym s]) in
   if op_is op "mkevent" then
@@ -294,7 +308,7 @@ Definition dispatch_enc (op : bytes) (args : list val) : option val :=
             match as_int id, as_int f, as_hex db, as_hex nm, parse_cols cols, as_hex opt with
             | Some id, Some f, Some db, Some nm, Some cols, Some opt =>
               let t := {| td_id := id; td_flags := f; td_db := db; td_name := nm; td_cols := cols; td_optional := opt |} in
-              Some (L (vhex (enc_ev c (h 19) (enc_table_map_body c t) crc) :: v_table_map (expect_table_map t)))
+              Some (L (vhex (enc_ev c (h 19) (enc_table_map_body c t) crc) :: v_table_map (expect_table_map (c_pad_tm c) t)))
             | _, _, _, _, _, _ => bad "tablemap" end
           | _ => bad "tablemap"
           end
@@ -305,7 +319,7 @@ Definition dispatch_enc (op : bytes) (args : list val) : option val :=
             match as_int k, as_int id, as_int f, as_hex ex, map_opt parse_ty tys, parse_images b, parse_images a with
             | Some k, Some id, Some f, Some ex, Some tys, Some b, Some a =>
               let r := {| rd_kind := k; rd_id := id; rd_flags := f; rd_extra := ex; rd_before := b; rd_after := a |} in
-              Some (L (vhex (enc_ev c (h (rows_type c k)) (enc_rows_body c tys r) crc) :: v_rows (expect_rows tys r)))
+              Some (L (vhex (enc_ev c (h (rows_type c k)) (enc_rows_body c tys r) crc) :: v_rows (expect_rows c tys r)))
             | _, _, _, _, _, _, _ => bad "rows" end
           | _ => bad "rows"
           end
